@@ -564,7 +564,18 @@ class BranchBuilder(AstVisitor[None]):
             # Operands in the middle of the chain occur in two comparisons but must be
             # evaluated only once, so anything that isn't a plain name or constant is
             # bound to a temporary in its first comparison and read back in the second
-            lefts: list[ast.expr] = [node.left]
+            first = node.left
+            if not isinstance(first, ast.Name | ast.Constant) and any(
+                not isinstance(mid, ast.Name | ast.Constant)
+                for mid in node.comparators[:-1]
+            ):
+                # Binding a middle operand hoists its evaluation, so the leftmost operand
+                # has to be bound as well to still be evaluated first
+                first = with_loc(
+                    first,
+                    ast.NamedExpr(target=make_var(next(tmp_vars), first), value=first),
+                )
+            lefts: list[ast.expr] = [first]
             rights: list[ast.expr] = []
             for mid in node.comparators[:-1]:
                 if isinstance(mid, ast.Name | ast.Constant):
